@@ -24,6 +24,10 @@ void hx_hash_add(hx_hash_t *h, const void *p, size_t n) {
 }
 void hx_hash_str(hx_hash_t *h, const char *s) { hx_hash_add(h, s, strlen(s) + 1); }
 
+static int warm_state;   /* session differential: 0 = not yet, 1 = in progress, 2 = done */
+#include "sanhooks.h"
+static void fatal_cb(const san_event_t *e);
+static const char *fatal_what = "";
 static void abort_cb(const char *kind, const char *detail) {
 	res_printf("A %s\t%s\n", kind, detail);
 	hx_emit_trace();
@@ -33,7 +37,7 @@ static int flags_cb(void) { return (bidib_running ? 1 : 0) | (bidib_discard_rx ?
 
 void hx_child_begin(const vs_dev_t *devs, int ndevs, int record_trace, void *(*early_fn)(void *), int early_budget,
                     uint64_t horizon_us) {
-	env_reset();
+	env_reset(); warm_state = 0; san_fatal_cb = fatal_cb; fatal_what = "(no case context set)";   /* reports the sanitizer cannot recover from are written to the parent before the process dies */
 	vs_abort_cb = abort_cb; vs_input_ready_cb = env_input_pending; vs_flags_cb = flags_cb;
 	vs_cfg_t c; memset(&c, 0, sizeof c);
 	c.devs = devs; c.ndevs = ndevs; c.record_trace = record_trace; c.early_fn = early_fn; c.early_budget = early_budget;
@@ -50,11 +54,39 @@ void hx_child_begin(const vs_dev_t *devs, int ndevs, int record_trace, void *(*e
 	NAME(bidib_action_id_mutex);
 	if (&bidib_send_order_mutex) NAME(bidib_send_order_mutex);
 }
+/* Session differential (VERIF_WARM=1, DESIGN 2.7): the first start of a child is preceded by a complete earlier session with
+ * the same arguments — start, settle, a little traffic, stop — after which the environment is put back to its initial state
+ * (simulated bus restored, transcript and pending uplink bytes cleared).  Everything the harness then explores happens in
+ * the process's SECOND session; vcheck compares the per-execution outcomes with those of the cold run. */
+#include "simbus.h"
+void bidib_stop(void); void bidib_flush(void);
+int bidib_ping(const char *board, uint8_t ping_byte);
+static void hx_warm_session(int debug, unsigned flush) {
+	const char *w = getenv("VERIF_WARM"); if (!w || !atoi(w) || warm_state) return;
+	warm_state = 1;
+	static simbus_t saved; memcpy(&saved, &SB, sizeof SB);
+	void (*saved_hook)(const uint8_t *, int32_t) = env_on_write;
+	int (*saved_on_msg)(int, const rc_msg_t *) = SB.on_msg; SB.on_msg = NULL;      /* the earlier session talks to a bus that answers everything */
+	bidib_set_lowlevel_debug_mode(debug ? 1 : 0);
+	int rc = bidib_start_pointer(env_read, env_write, debug ? NULL : ENV_CFG_DIR, flush);
+	vs_idle_wait();
+	if (rc == 0) {
+		if (!debug) { bidib_ping("master", 0x42); bidib_flush(); vs_idle_wait(); }
+		vs_sleep_us(2500000); vs_idle_wait();
+		uint8_t *m; while ((m = bidib_read_message())) free(m); while ((m = bidib_read_error_message())) free(m);
+		bidib_stop(); vs_idle_wait();
+	}
+	memcpy(&SB, &saved, sizeof SB); SB.on_msg = saved_on_msg; env_on_write = saved_hook;
+	env_clear_io();
+	warm_state = 2;
+}
 int hx_start_debug(unsigned flush) {
+	hx_warm_session(1, flush);
 	bidib_set_lowlevel_debug_mode(1);
 	return bidib_start_pointer(env_read, env_write, NULL, flush);
 }
 int hx_start_normal(unsigned flush) {
+	hx_warm_session(0, flush);
 	bidib_set_lowlevel_debug_mode(0);
 	return bidib_start_pointer(env_read, env_write, ENV_CFG_DIR, flush);
 }
@@ -129,7 +161,6 @@ const char *hx_sym(uintptr_t pc) {
 	return best >= 0 ? syms[best].name : "?";
 }
 static int san_seen; static char *emitted_cls[64]; static int n_emitted;
-static const char *fatal_what = "";
 static void fatal_cb(const san_event_t *e) {
 	const char *fn = "?"; char stack[500]; size_t so = 0; stack[0] = 0;
 	for (int i = 0; i < e->npcs; i++) { const char *s = hx_sym(e->pcs[i] - (i ? 1 : 0)); if (so + 60 < sizeof stack) so += (size_t) snprintf(stack + so, sizeof stack - so, "%s ", s); if (!strcmp(fn, "?") && !strncmp(s, "bidib_", 6)) fn = s; }
